@@ -137,7 +137,9 @@ def diffFields : Fields → Fields → Fields × Bool
     | some v2 =>
       match diff v v2 with
       | .same => (r, rp)
-      | .patch p => (fset r k p, rp)
+      -- Go: `if v3 != nil { ret[k] = v3 }` — a nil child result is not stored, whether it
+      -- stands for "no difference" or for a nil target value over a replaceable base
+      | .patch p => if p.isNull then (r, rp) else (fset r k p, rp)
       | .replaceParent => (r, true)
 end
 
